@@ -51,13 +51,17 @@ def h_levinson(ctx, cfg):
   for i, v in fixed.items():
     ctx.assume(r[int(i)] == Fraction(v))
   order = cfg.get("order")
+  mine = list(r)
   try:
-    filt = levinson_durbin(list(r)) if order is None else levinson_durbin(list(r), order)
+    filt = levinson_durbin(mine) if order is None else levinson_durbin(mine, order)
   except ZeroDivisionError as e:
     ctx.prove(isinstance(e, ParCorError), "division-by-zero-is-reported-as-ParCorError", type(e).__name__)
     ctx.exclude("recursion divides by zero")
   p = n - 1 if order is None else order
   _check_yule_walker(ctx, filt, r, p, "levinson")
+  # the caller's lag list is an input: a later call on the same list sees the same r (and so the same default order)
+  ctx.prove(len(mine) == n and all(a is b for a, b in zip(mine, r)), "the-caller's-lag-list-is-not-modified",
+            "len %d -> %d" % (n, len(mine)))
 
 
 def h_tables(ctx, cfg):
